@@ -37,7 +37,7 @@ class Slot:
     def __init__(self, t, shape, default, origin):
         self.t = t
         self.free = isinstance(t, Fiber)
-        self.depth = len(t.ranks) if not self.free else None
+        self.depth = len(t.ranks) if not self.free else 1     # free-standing fibers are leaf fibers here
         self.shape = shape
         self.default = default
         self.model = {}
@@ -101,13 +101,13 @@ class TreeSim(WorldBase):
     @classmethod
     def gen_config(cls, prop, rng, tier):
         depth = rng.choice([1, 2, 2, 3, 3])
-        shape = [rng.randint(2, 6) for _ in range(depth)]
+        shape = [rng.randint(2, 6 if tier == "quick" else 8) for _ in range(depth)]
         cfg = {
             "depth": depth,
             "shape": shape,
             "slots": rng.choice([1, 2, 2, 3]) if prop in ("C01", "C02", "C03") else rng.choice([2, 2, 3]),
             "leaf_default": 0,
-            "max_events": rng.choice([12, 25, 40, 60]),
+            "max_events": rng.choice([12, 25, 40, 60] if tier == "quick" else [25, 60, 90, 140]),
             "reject": rng.choice([0.0, 0.1, 0.3]),
             "explicit": rng.choice([0.0, 0.2, 0.5]),   # explicit defaults / empty sub-fibers in builds
             "mode": prop,
@@ -284,7 +284,7 @@ class TreeSim(WorldBase):
         # --- structural invariants on every tensor
         for s, sl in self.slots.items():
             if sl.free:
-                errs = ob.wellformed(sl.t, _free_depth(sl.t), where=f"slot{s}")
+                errs = ob.wellformed(sl.t, sl.depth, where=f"slot{s}")
                 if errs:
                     self.V("C01", "C01.wellformed", culprit, "; ".join(errs[:3]))
                 continue
@@ -398,6 +398,8 @@ class TreeSim(WorldBase):
         elif route == "pop":
             t = Tensor.makePopulated(ids, shape, initial=a.get("initial", 1), default=0)
             default = 0
+        elif route == "free1":
+            t = build_fiber(a["spec"], shape, default=default)
         elif route == "rank0":
             t = Tensor(rank_ids=[], name="r0")
             r = t.getPayloadRef()
@@ -449,6 +451,7 @@ class TreeSim(WorldBase):
                 if i in a["fmtU"]:
                     t.setFormat(t.getRankIds()[i], "U")
         self.slots[s] = Slot(t, shape, default, route)
+        self.probe("new:" + route)
         for h in self.handles:
             if h["slot"] == s:
                 h["alive"] = False
@@ -464,8 +467,6 @@ class TreeSim(WorldBase):
         pre = dec_point(a.get("prefix", []))
         rest = dec_point(a["rest"])
         point = pre + rest
-        if sl.free:
-            raise Skip("free")
         if len(point) != sl.depth:
             raise Skip("arity")
         targets.add(s)
@@ -577,8 +578,6 @@ class TreeSim(WorldBase):
         s = a["slot"]
         sl, f = self.fiber_at(s, a["prefix"])
         self.need_unfrozen(s)
-        if sl.free:
-            raise Skip("free")
         pre = dec_point(a["prefix"])
         c = dec_coord(a["coord"])
         kw = {}
@@ -600,8 +599,6 @@ class TreeSim(WorldBase):
     def op_get(self, a, targets):
         s = a["slot"]
         sl = self.slot(s)
-        if sl.free:
-            raise Skip("free")
         pre = dec_point(a.get("prefix", []))
         rest = dec_point(a["rest"])
         point = pre + rest
@@ -755,7 +752,7 @@ class TreeSim(WorldBase):
         self.need_unfrozen(s)
         level = len(a["prefix"])
         if sl.free:
-            raise Skip("free")
+            self.probe("mutator_on_free_fiber")
         leaf = level == sl.depth - 1
         if need_leaf is True and not leaf:
             raise Skip("needs leaf fiber")
@@ -848,7 +845,7 @@ class TreeSim(WorldBase):
         osl, of = self.fiber_at(a["src"], a["src_prefix"])
         if a["src"] == a["slot"]:
             raise Skip("same tensor")
-        if osl.free or osl.depth - len(a["src_prefix"]) != sl.depth - level:
+        if osl.depth - len(a["src_prefix"]) != sl.depth - level:
             raise Skip("level mismatch")
         if not self.kinds_ok(sl, level, f, osl, len(a["src_prefix"]), of):
             raise Skip("coordinate kinds differ")
@@ -1024,8 +1021,6 @@ class TreeSim(WorldBase):
             self.need_unfrozen(as_)
             zsl, zf = self.fiber_at(zs, a["zpre"])
             asl, af = self.fiber_at(as_, a["apre"])
-            if zsl.free or asl.free:
-                raise Skip("free")
             if zsl.depth - len(a["zpre"]) != asl.depth - len(a["apre"]):
                 raise Skip("levels differ")
             if not self.kinds_ok(zsl, len(a["zpre"]), zf, asl, len(a["apre"]), af):
@@ -1234,8 +1229,6 @@ class TreeSim(WorldBase):
         s = a["slot"]
         self.need_unfrozen(s)
         sl, f = self.fiber_at(s, a["prefix"])
-        if sl.free:
-            raise Skip("free")
         level = len(a["prefix"])
         S = self.level_shape(sl, level)
         if not isinstance(S, int):
@@ -1534,6 +1527,10 @@ class TreeSim(WorldBase):
         if not initial or s > 0:
             routes += ["dcopy", "yaml", "setroot"]
         route = g.choice(routes)
+        if self.prop in ("C01", "C03", "C05", "C10") and s > 0 and g.random() < 0.12:
+            S = g.randint(2, 6)
+            return {"slot": s, "route": "free1", "depth": 1, "shape": [S], "default": 0,
+                    "spec": self.gen_spec(g, [S], 0, cfg["explicit"])}
         if self.prop in ("C03", "C10", "C02") and s > 0 and g.random() < 0.08:
             return {"slot": s, "route": "rank0", "depth": 0, "shape": [], "default": 0, "initial": g.choice([0, self.nextval()])}
         a = {"slot": s, "route": route, "depth": depth, "shape": shape, "default": cfg["leaf_default"]}
@@ -1604,7 +1601,7 @@ class TreeSim(WorldBase):
         return "none", None
 
     def gen_ref(self, g):
-        s = self.pick_slot(g)
+        s = self.pick_slot(g, nonfree=False)
         if s is None:
             return None
         sl = self.slots[s]
@@ -1643,7 +1640,7 @@ class TreeSim(WorldBase):
         return ["op", "hw", {"h": g.randrange(1 << 16), "act": act, "v": v}]
 
     def gen_posref(self, g):
-        s = self.pick_slot(g)
+        s = self.pick_slot(g, nonfree=False)
         if s is None:
             return None
         sl = self.slots[s]
@@ -1660,7 +1657,7 @@ class TreeSim(WorldBase):
         return ["op", "posref", a]
 
     def gen_get(self, g):
-        s = self.pick_slot(g, unfrozen=False)
+        s = self.pick_slot(g, unfrozen=False, nonfree=False)
         if s is None:
             return None
         sl = self.slots[s]
@@ -1687,7 +1684,7 @@ class TreeSim(WorldBase):
         return ["op", "get", a]
 
     def gen_getpos(self, g):
-        s = self.pick_slot(g, unfrozen=False)
+        s = self.pick_slot(g, unfrozen=False, nonfree=False)
         if s is None:
             return None
         sl = self.slots[s]
@@ -1704,7 +1701,7 @@ class TreeSim(WorldBase):
         return ["op", "getpos", a]
 
     def _leaf_fiber(self, g, need_leaf=True):
-        s = self.pick_slot(g)
+        s = self.pick_slot(g, nonfree=False)
         if s is None:
             return None
         sl = self.slots[s]
@@ -1891,10 +1888,10 @@ class TreeSim(WorldBase):
     def gen_populate(self, g):
         if len(self.slots) < 2:
             return None
-        zs = self.pick_slot(g)
+        zs = self.pick_slot(g, nonfree=False)
         if zs is None:
             return None
-        others = [x for x in self.slots if x != zs and not self.frozen(x) and not self.slots[x].free]
+        others = [x for x in self.slots if x != zs and not self.frozen(x) and self.slots[x].depth > 0]
         if not others:
             return None
         as_ = g.choice(others)
@@ -1914,7 +1911,7 @@ class TreeSim(WorldBase):
         return None
 
     def gen_ishaperef(self, g):
-        s = self.pick_slot(g)
+        s = self.pick_slot(g, nonfree=False)
         if s is None:
             return None
         sl = self.slots[s]
